@@ -33,6 +33,10 @@ type c01CapturePeer struct {
 	ln   net.Listener
 	mu   sync.Mutex
 	caps []*c01Capture1
+	// round 7 — early-final-status mode: a request with Expect: 100-continue and a body is answered
+	// 401 (keep-alive, no 100 Continue) as soon as its head has been read; the peer then reads the
+	// body the head announced and serves a further request on the same connection
+	earlyFinal atomic.Bool
 }
 
 type c01Capture1 struct {
@@ -40,6 +44,11 @@ type c01Capture1 struct {
 	parsed bool
 	done   chan struct{}
 	remote string // the client's address of this connection: which case dialed it
+	first  string // method SP request-target of the first request the reference parser accepted
+	early  bool   // the first request was answered 401 before its body (early-final-status mode)
+	end1   int    // early: how many of the captured bytes belong to the first request (head + body)
+	second string // early: method SP request-target of the request that followed on this connection
+	tail   []byte // early: what arrived behind the first request (set by the lane when it cuts raw)
 }
 
 func c01StartCapturePeer(t testing.TB) *c01CapturePeer {
@@ -68,6 +77,23 @@ func c01StartCapturePeer(t testing.TB) *c01CapturePeer {
 					// not a request the reference parser accepts: answer, then keep reading
 					// until the client hangs up so that the head is captured completely
 					io.WriteString(c, "HTTP/1.1 400 Bad Request\r\nConnection: close\r\nContent-Length: 0\r\n\r\n")
+					io.Copy(io.Discard, br)
+					return
+				}
+				cp.first = r.Method + " " + r.RequestURI
+				if p.earlyFinal.Load() && r.Header.Get("Expect") == "100-continue" && r.Body != nil && r.Body != http.NoBody {
+					cp.early = true
+					io.WriteString(c, "HTTP/1.1 401 Unauthorized\r\nWWW-Authenticate: Basic realm=\"c01\"\r\nContent-Length: 0\r\n\r\n")
+					if _, err := io.Copy(io.Discard, r.Body); err != nil {
+						return
+					}
+					cp.parsed = true
+					cp.end1 = cp.raw.Len() - br.Buffered()
+					if r2, err := http.ReadRequest(br); err == nil {
+						cp.second = r2.Method + " " + r2.RequestURI
+						io.Copy(io.Discard, r2.Body)
+						io.WriteString(c, "HTTP/1.1 200 OK\r\nConnection: close\r\nContent-Length: 0\r\n\r\n")
+					}
 					io.Copy(io.Discard, br)
 					return
 				}
@@ -135,6 +161,12 @@ func (p *c01CapturePeer) takeFor(addrs []string, wait time.Duration) []*c01Captu
 	}
 }
 
+// c01IsFollow: the follow-up request of the early-final-status class as the peer's parser reports it
+// (origin-form, or absolute-form through the proxy).
+func c01IsFollow(s string) bool {
+	return strings.HasPrefix(s, "GET ") && strings.HasSuffix(s, "/c01-follow")
+}
+
 func c01SendIsTimeout(err error) bool {
 	var ne net.Error
 	return errors.Is(err, os.ErrDeadlineExceeded) || (errors.As(err, &ne) && ne.Timeout()) || strings.Contains(err.Error(), "timeout awaiting response headers")
@@ -165,10 +197,10 @@ func TestVerif_C01_h1send(t *testing.T) {
 	var dialFailed atomic.Bool // the loopback dial itself failed (ephemeral ports exhausted on a busy machine …): not a verdict on the code
 	var dialMu sync.Mutex
 	var dialed []string // local addresses of the connections dialed since the current attempt began
-	mk := func(compress bool) *Transport {
+	mk := func(compress bool, expectWait time.Duration) *Transport {
 		tr := T().EnableForceHTTP1()
 		tr.DisableCompression = !compress
-		tr.ExpectContinueTimeout = time.Millisecond
+		tr.ExpectContinueTimeout = expectWait
 		tr.ResponseHeaderTimeout = 1500 * time.Millisecond // a smuggled lower-case transfer-encoding makes the reference parser wait for chunks
 		tr.SetDial(func(ctx context.Context, network, addr string) (net.Conn, error) {
 			c, err := net.Dial("tcp", p.ln.Addr().String())
@@ -183,13 +215,36 @@ func TestVerif_C01_h1send(t *testing.T) {
 		})
 		return tr
 	}
-	trs := map[bool]*Transport{true: mk(true), false: mk(false)}
+	trs := map[bool]*Transport{true: mk(true, time.Millisecond), false: mk(false, time.Millisecond)}
+	trsEarly := map[bool]*Transport{true: mk(true, 5*time.Second), false: mk(false, 5*time.Second)} // the early-final-status class: the body waits for the peer's word
 	proxyURL, _ := url.Parse("http://" + p.ln.Addr().String())
 	for i := 0; i < n; i++ {
 		tc := c01GenH1(r, "plain")
 		tc.rawURL = strings.Replace(tc.rawURL, "https://", "http://", 1)
 		compress := r.Intn(2) == 0
 		tr := trs[compress]
+		// round 7 — early-final-status class: a body of known-correct or unknown length, Expect:
+		// 100-continue, a peer that answers the head 401 without 100 Continue and keeps the
+		// connection; a follow-up request of the same transport comes next. The first request must
+		// still arrive whole (head + body as the model sendH1 writes them) and the follow-up must be
+		// read as a request of its own.
+		early := false
+		if tc.bodyKind != 0 && len(tc.body) > 1 && (tc.cl <= 0 || tc.cl == int64(len(tc.body))) && tc.method != "CONNECT" && r.Intn(3) == 0 {
+			early = true
+			for k := range tc.header {
+				if strings.EqualFold(k, "Expect") || strings.EqualFold(k, "Connection") || k == HeaderOderKey {
+					early = false
+				}
+			}
+		}
+		if early {
+			if tc.header == nil {
+				tc.header = http.Header{}
+			}
+			tc.header["Expect"] = []string{"100-continue"}
+			tr = trsEarly[compress]
+		}
+		p.earlyFinal.Store(early)
 		if tc.proxy {
 			tr.SetProxy(func(*http.Request) (*url.URL, error) { return proxyURL, nil })
 		} else {
@@ -270,6 +325,19 @@ func TestVerif_C01_h1send(t *testing.T) {
 			s.Count("skipped:dial-error")
 			continue
 		}
+		followed, followNote, expectObs := false, "", ""
+		if early && err == nil && resp != nil && resp.StatusCode == 401 {
+			followed = true
+			freq := &http.Request{Method: "GET", URL: &url.URL{Scheme: "http", Host: u.Host, Path: "/c01-follow"}, Header: http.Header{}, Proto: "HTTP/1.1", ProtoMajor: 1, ProtoMinor: 1}
+			fresp, ferr := tr.RoundTrip(freq)
+			if fresp != nil {
+				io.Copy(io.Discard, fresp.Body)
+				fresp.Body.Close()
+			}
+			if ferr != nil || fresp.StatusCode != 200 {
+				followNote = fmt.Sprintf(" ORACLE: the request that followed the early 401 on this transport was not answered 200 (err=%v)", ferr)
+			}
+		}
 		tr.CloseIdleConnections()
 		dialMu.Lock()
 		mine := append([]string(nil), dialed...)
@@ -292,6 +360,53 @@ func TestVerif_C01_h1send(t *testing.T) {
 			}
 			if len(live) >= 1 {
 				caps = live
+			}
+		}
+		if followed {
+			// the follow-up may have travelled on a connection of its own (the first one was not
+			// idle yet): that capture is not the case's request
+			var keep []*c01Capture1
+			nFollow := 0
+			reusedConn := false
+			for _, c := range caps {
+				if c01IsFollow(c.first) {
+					nFollow++
+					continue
+				}
+				if c.early && c.end1 > 0 {
+					c.tail = append([]byte(nil), c.raw.Bytes()[c.end1:]...)
+					c.raw.Truncate(c.end1)
+					if len(c.tail) > 0 {
+						reusedConn = true
+					}
+					if c01IsFollow(c.second) {
+						nFollow++
+						s.Count("expect-early-final:connection-reused")
+					} else if len(c.tail) > 0 {
+						followNote += fmt.Sprintf(" ORACLE: behind the first request the peer received %q: not a request of its own", c01Blob(c.tail))
+					}
+				}
+				keep = append(keep, c)
+			}
+			caps = keep
+			if nFollow != 1 && followNote == "" {
+				followNote = fmt.Sprintf(" ORACLE: the follow-up request was seen %d times by the peer as GET /c01-follow", nFollow)
+			}
+			s.Count("expect-early-final")
+			// what the model Req.H1.Expect says about this exchange (lane line c01expect): did the
+			// write loop take the body from the caller's reader, did the connection carry more
+			pulled := 0
+			for _, z := range rec {
+				pulled += z
+			}
+			// (a body of unknown length is probed for emptiness — one byte — while the head is
+			// being written: only the WHOLE body taken counts as sent, bodies here have >= 2 bytes)
+			expectObs = "body=" + c01b(pulled == len(tc.body)) + " reuse=" + c01b(reusedConn)
+			if pulled != 0 && pulled != 1 && pulled != len(tc.body) {
+				expectObs += fmt.Sprintf(" pulled=%d/%d", pulled, len(tc.body))
+			}
+			if tc.close {
+				s.Count("expect-early-final:request-close")
 			}
 		}
 		if d := time.Since(t0); d > 150*time.Millisecond {
@@ -392,9 +507,16 @@ func TestVerif_C01_h1send(t *testing.T) {
 				s.Count("sent:raw-query-assigned")
 			}
 		}
+		if followNote != "" {
+			ok = false
+			human += followNote
+		}
+		if followed {
+			s.Case("c01expect "+c01b(tc.close)+" 0", expectObs, true, "", true, "early final status (401, connection kept by the peer) before 100 Continue: "+human)
+		}
 		s.Case(c01H1Line("c01send "+mode, tc, rec), ans, ok, "", sent, human+fmt.Sprintf(" -> err=%v connections=%d", err, len(caps)))
 	}
-	s.Need(t, "err:header", "err:method", "err:ctl", "err:bodylen", "sent:plain", "sent:order-mode", "sent:refused-by-reference-parser")
+	s.Need(t, "err:header", "err:method", "err:ctl", "err:bodylen", "sent:plain", "sent:order-mode", "sent:refused-by-reference-parser", "expect-early-final", "expect-early-final:connection-reused", "expect-early-final:request-close")
 	if k := s.seen["skipped:harness-timeout"]; k > 3 && k*100 > 3*n {
 		t.Errorf("%d of %d cases ended in a time-out with nothing captured: more than a stalled machine explains", k, n)
 	}
